@@ -1,14 +1,14 @@
 package main
 
 import (
-	"strings"
-	"runtime/debug"
 	"flag"
 	"fmt"
 	"os"
 	"path/filepath"
+	"runtime/debug"
 	"sort"
 	"strconv"
+	"strings"
 )
 
 // mpbcheck <property-id>|dump [flags]
